@@ -88,6 +88,9 @@ func (pass *DisjunctionInferMapping) inferDiscriminatorField(schema *ast.Schema,
 	fieldName := ""
 	// map[typeName][fieldName]value
 	candidates := make(map[string]map[string]any)
+	// map[typeName][]fieldName, in declaration order: the choice between several
+	// candidates must not depend on the iteration order of a map
+	candidatesOrder := make(map[string][]string)
 
 	// Identify candidates from each branch
 	for _, branch := range def.Branches {
@@ -109,6 +112,8 @@ func (pass *DisjunctionInferMapping) inferDiscriminatorField(schema *ast.Schema,
 				continue
 			}
 
+			candidatesOrder[typeName] = append(candidatesOrder[typeName], field.Name)
+
 			switch field.Type.Kind {
 			case ast.KindScalar:
 				candidates[typeName][field.Name] = field.Type.AsScalar().Value
@@ -128,7 +133,7 @@ func (pass *DisjunctionInferMapping) inferDiscriminatorField(schema *ast.Schema,
 		allTypes = append(allTypes, typeName)
 	}
 
-	for candidateFieldName := range candidates[someType] {
+	for _, candidateFieldName := range candidatesOrder[someType] {
 		existsInAllBranches := true
 		for _, branchTypeName := range allTypes {
 			if _, ok := candidates[branchTypeName][candidateFieldName]; !ok {
